@@ -65,6 +65,30 @@ KERNELS.append(dict(name="K_fan_ctor", file=F, cxx_name="FanProjData::FanProjDat
                            (r"fan_indices\[ra\]\[a\]\[rb\]\s*= IndexRange<1>\(([^;]*)\);", r"IDX_SET3(ra, a, rb, \1);", 1),
                            (r"(?<![\w>.])grow\(fan_indices\);", "", 1), (r"(?<![\w>.])fill\(0\);", "", 1),
                            (r"(?<![\w>._])(half_fan_size)\b", r"self->\1", (1, 3)), (r"\bmax\(", "K_max_int(", 3), (r"\bmin\(", "K_min_int(", 1)]))
+# GeoData3D: same pattern (only half of the data stored; the fan is the whole ring: [a, a+N-1])
+GSEL = [(r"\(\*this\)\[([^\]]+)\]\[([^\]]+)\]\[([^\]]+)\]\s*\[([^\]]+)\]", r"GEO_CELL(self, \1, \2, \3, \4)", 1),
+        (r"get_min_b\(", "GEO_MIN_B(self, ", 1), (r"(?<![\w>.])num_detectors_per_ring\b", "self->num_detectors_per_ring", 2)]
+KERNELS += [
+    dict(name="K_geo_select", file=F, cxx_name="GeoData3D::operator()(ra,a,rb,b) const", func=r"GeoData3D::operator\(\)\(const int ra, const int a, const int rb, const int b\) const",
+         c_header="float K_geo_select(const struct GEO* self, const int ra, const int a, const int rb, const int b)", loops=0, rules=GSEL),
+    dict(name="K_geo_select_nc", file=F, cxx_name="GeoData3D::operator()(ra,a,rb,b) (non-const)", func=r"GeoData3D::operator\(\)\(const int ra, const int a, const int rb, const int b\)(?!\s*const)",
+         c_header="float K_geo_select_nc(const struct GEO* self, const int ra, const int a, const int rb, const int b)", loops=0, rules=GSEL),
+    dict(name="K_geo_is_in_data", file=F, cxx_name="GeoData3D::is_in_data", func=r"GeoData3D::is_in_data\(const int ra, const int a, const int rb, const int b\) const",
+         c_header="_Bool K_geo_is_in_data(const struct GEO* self, const int ra, const int a, const int rb, const int b)", loops=0,
+         rules=[(r"\(\*this\)\[ra\]\[a\]\.get_min_index\(\)", "GEO_RB_MIN(self, ra, a)", 1), (r"\(\*this\)\[ra\]\[a\]\.get_max_index\(\)", "GEO_RB_MAX(self, ra, a)", 1),
+                (r"get_min_b\(", "GEO_MIN_B(self, ", (1, 2)), (r"get_max_b\(", "GEO_MAX_B(self, ", 2), (r"(?<![\w>.])num_detectors_per_ring\b", "self->num_detectors_per_ring", (1, 2))]),
+    dict(name="K_geo_ctor", file=F, cxx_name="GeoData3D::GeoData3D(num_axial_crystals_per_block, half_num_transaxial_crystals_per_block, num_rings, num_detectors_per_ring)",
+         func=r"GeoData3D::GeoData3D\(const int num_axial_crystals_per_block,\s*const int half_num_transaxial_crystals_per_block,\s*const int num_rings,\s*const int num_detectors_per_ring\)",
+         init_list=True, c_header="void K_geo_ctor(struct GEO* self, const int num_axial_crystals_per_block, const int half_num_transaxial_crystals_per_block, const int num_rings, "
+                                  "const int num_detectors_per_ring)", loops=3,
+         rules=[(r"IndexRange<4> fan_indices;", "", 1), (r"fan_indices\.grow\(([^;]*)\);", r"IDX_GROW0(\1);", 1), (r"fan_indices\[ra\]\.grow\(([^;]*)\);", r"IDX_GROW1(ra, \1);", 1),
+                (r"fan_indices\[ra\]\[a\]\.grow\(([^;]*)\);", r"GEO_GROW2(ra, a, \1);", 1),
+                (r"fan_indices\[ra\]\[a\]\[rb\]\s*= IndexRange<1>\(([^;]*)\);", r"GEO_SET3(ra, a, rb, \1);", 1),
+                (r"(?<![\w>.])grow\(fan_indices\);", "", 1), (r"(?<![\w>.])fill\(0\);", "", 1)]),
+]
+for k in KERNELS:
+    if k["name"].startswith("K_geo_select"):
+        k["contract_alias"] = "K_geo_select"
 for k in KERNELS:
     if k["name"].startswith("K_fan_select"):
         k["contract_alias"] = "K_fan_select"
@@ -102,6 +126,11 @@ def jobs(tier, gen_dir):
         J("lemma_ml_fixed_point/" + k, "h_lemma_fixed_point_" + k, kind="lemma", repl=[k], kernels=[k], backend="sat", min_obligations=1, timeout=900)
     out.append(Job("c20/canary/K_ml_ratio_block3d", HARNESS, "h_K_ml_ratio_block3d", enforce="K_ml_ratio_block3d", kernels=["K_ml_ratio_block3d"], kind="canary",
                    defines={"CANARY_K_ml_ratio_block3d": None}, expect_fail=r"K_ml_ratio_block3d\.postcondition", no_base_flags=True, timeout=300))
+    GRD = ["GEO_MIN_B", "GEO_MAX_B", "GEO_RB_MIN", "GEO_RB_MAX"]
+    J("K_geo_is_in_data", "h_K_geo_is_in_data", enforce="K_geo_is_in_data", repl=GRD, kernels=["K_geo_is_in_data"])
+    J("K_geo_select", "h_K_geo_select", enforce="K_geo_select", repl=GRD, kernels=["K_geo_select"])
+    J("K_geo_select_nc", "h_K_geo_select_nc", enforce="K_geo_select_nc", repl=GRD, kernels=["K_geo_select_nc"])
+    J("K_geo_ctor", "h_K_geo_ctor", enforce="K_geo_ctor", kernels=["K_geo_ctor"], loop_contracts=True)
     J("K_fan_ctor", "h_K_fan_ctor", enforce="K_fan_ctor", kernels=["K_fan_ctor"], loop_contracts=True)
     out.append(Job("c20/canary/K_fan_ctor", HARNESS, "h_K_fan_ctor", enforce="K_fan_ctor", kernels=["K_fan_ctor"], kind="canary", loop_contracts=True,
                    defines={"CANARY_K_fan_ctor": None}, expect_fail=r"K_fan_ctor\.postcondition", no_base_flags=True, timeout=300, backend="kissat"))
@@ -117,7 +146,7 @@ TRUSTED = ["index ranges of FanProjData: the readers FAN_MIN_B/FAN_MAX_B/FAN_RB_
 ASSUMPTIONS = ["parametric: crystals per block / virtual crystals per block are constants per job; crystal and ring numbers < 100000"]
 UNDECIDED_CLAUSES = ["apply/un-apply of efficiencies, geometric and block factors (float products; un-apply restores only up to rounding)",
                      "fixed point of iterate_efficiencies, of the make_geo_data / make_block_data sums around the element update, and Kullback-Leibler descent of the ML iterations", "the loops of make_fan_data_remove_gaps_help / set_fan_data_add_gaps_help around the index maps",
-                     "GeoData3D / BlockData3D / DetPairData constructors (same pattern, not under contract)"]
+                     "BlockData3D / DetPairData classes (same pattern as FanProjData / GeoData3D, not under contract)"]
 
 
 def param_summary(tier):
